@@ -980,9 +980,10 @@ fn run_pair(pr: &Pair, stop_at_first: bool) -> (PairResult, Vec<(String, String,
             if res.violation.is_none() || (!f6 && res.violation.as_ref().map(|v| v.0.starts_with("F6")).unwrap_or(false)) {
                 res.violation = Some((key.to_string(), what, i));
             }
-            if !f6 || stop_at_first {
-                break;
-            }
+            // once a copy has diverged (F6 or anything else) the independent engine is no longer
+            // its reference: stop this session
+            let _ = stop_at_first;
+            break;
         }
     }
     (res, all)
@@ -1332,6 +1333,9 @@ fn run_mpair(mp: &MPair) -> (Vec<String>, Vec<(String, String, usize)>, usize) {
         let ox = exec(x, &it);
         let or = exec(rx, &it);
         outs.push(c.sout(&ox));
+        if !viols.is_empty() {
+            continue; // diverged already: keep recording what the clone pair does, stop comparing
+        }
         if let (MC::Decl(Ns::Func, n, _), true) = (c, or.ok) {
             if decl[other].contains(n) {
                 collisions += 1;
@@ -1348,9 +1352,6 @@ fn run_mpair(mp: &MPair) -> (Vec<String>, Vec<(String, String, usize)>, usize) {
                 format!("command {i} on copy {sd:?} `{}` ({kind}): clone pair gave {d} (second: independent engine)", it.show()),
                 i,
             ));
-            if !f6 {
-                break;
-            }
         }
     }
     (outs, viols, collisions)
